@@ -59,6 +59,15 @@ def run_corpus(case):
 SOURCES = {'c06': c06, 'c07': c07, 'c08': c08, 'c09': c09}
 
 
+def pred_feb29_endpoint_other_year(case, v):
+    """the C10 known finding seen through C11's shape oracle: a date(-time) range with a Feb-29 endpoint and the other endpoint in another year
+    is forced into one year, which can put the end before the start"""
+    return case.get('src') == 'c10' and 'a' in case.get('case', {}) and c10.pred_feb29_endpoint_other_year(case['case'], v)
+
+
+PREDICATES = {'c11_feb29_endpoint_other_year': pred_feb29_endpoint_other_year}
+
+
 def run_generated(case):
     src = case['src']
     if src == 'c10':
